@@ -186,6 +186,7 @@ def export_behaviours(module, cfg, num, depth, seed, env=None, timeout=1800, wor
     os.mkdir(out_dir)
     e = dict(env or {})
     e['OUT_DIR'] = out_dir
+    e['SIM_DEPTH'] = str(depth)
     res = run(module, cfg, workers=workers, simulate=dict(num=num), depth=depth, seed=seed,
               env=e, timeout=timeout, workdir=wd)
     if res.violation:
